@@ -21,7 +21,7 @@ func init() {
 	})
 	register(&propDef{
 		id:      "C18",
-		explain: "Structural necessary conditions of 'HostClient never exceeds MaxConns, its connection count is exact, and waiters are served': (E1) connsCount pairing on every path: AcquireConn keeps one unit exactly when it returns a freshly dialled connection; decConnsCount gives back one unit or hands it to exactly one dial goroutine for a waiter; dialConnFor gives the inherited unit back on every dial failure and keeps it with the connection otherwise; CloseConn gives back exactly one unit; (R-bound) the increment is control-dependent on connsCount < maxConns in the same critical section, where maxConns is the configured value or the default; (E8) conns, connsCount, connsWait and connsCleanerRun are only accessed under connsLock, wantConn.conn/err under wantConn.mu; (R-idle) a connection taken from the idle list is removed from it in the same critical section. Not decided: waiter fairness, deadline timing, interleavings.",
+		explain: "Structural necessary conditions of 'HostClient never exceeds MaxConns, its connection count is exact, and waiters are served': (E1) connsCount pairing on every path: AcquireConn keeps one unit exactly when it returns a freshly dialled connection; decConnsCount gives back one unit or hands it to exactly one dial goroutine for a waiter; dialConnFor gives the inherited unit back on every dial failure and keeps it with the connection otherwise; CloseConn gives back exactly one unit; (R-bound) the increment is control-dependent on connsCount < maxConns in the same critical section, where maxConns is the configured value or the default; (E8) conns, connsCount, connsWait and connsCleanerRun are only accessed under connsLock, wantConn.conn/err under wantConn.mu; (R-idle) a connection taken from the idle list is removed from it in the same critical section. (R-wait) in AcquireConn every return reached after a waiter was queued either hands out what the waiter received or has cancelled it (explicitly or through a deferred closure registered before the waiter was queued), so an abandoned waiter never receives a connection or a slot. Not decided: waiter fairness, deadline timing, interleavings.",
 		run:     runC18,
 	})
 	register(&propDef{
@@ -533,6 +533,7 @@ func runC38(p *Prog, r *Report) {
 // ---------------------------------------------------------------- C18
 
 func runC18(p *Prog, r *Report) {
+	waiterCancelledOnGiveUp(p, r)
 	acq := p.Func("(*HostClient).AcquireConn")
 	dec := p.Func("(*HostClient).decConnsCount")
 	dialFor := p.Func("(*HostClient).dialConnFor")
@@ -1489,4 +1490,87 @@ func pendingDrainedAfterBothStopped(p *Prog, r *Report) {
 	}
 	r.Check("R9", "worker: the pending-response queue is drained only after both the writer and the reader goroutine have reported their end", bad == 0, p.Pos(pos),
 		fmt.Sprintf("%d of %d explored arrivals at the drain have not yet received from both completion channels: the goroutine still running can put further items into the queue after the drain; they stay there across the re-dial and are answered with other requests' responses", bad, n), wit...)
+}
+
+// waiterCancelledOnGiveUp (C18.R-wait): a request that queued a wantConn and then gives up waiting must take it
+// out of the race: while it stays queued with its ready channel open, the next released connection (or the next
+// freed slot, through a dial started for it) is delivered to a request that has already returned - the connection
+// is neither idle nor in use, and its slot never comes back. In AcquireConn every return reached after the waiter
+// was queued either hands out what the waiter received (w.conn) or has called w.cancel - explicitly, or through a
+// deferred closure that was registered before the waiter was queued.
+func waiterCancelledOnGiveUp(p *Prog, r *Report) {
+	fn := p.Func("(*HostClient).AcquireConn")
+	q := p.Func("(*HostClient).queueForIdle")
+	cancel := p.Func("(*wantConn).cancel")
+	if fn == nil || q == nil || cancel == nil {
+		r.Undecided("R-wait", "AcquireConn / queueForIdle / wantConn.cancel", "not found")
+		return
+	}
+	n := 0
+	for _, b := range fn.Blocks {
+		for _, in := range b.Instrs {
+			c, ok := in.(ssa.CallInstruction)
+			if !ok || c.Common().StaticCallee() != q {
+				continue
+			}
+			n++
+			// a deferred closure that cancels, registered before the waiter is queued
+			deferred := false
+			for _, b2 := range fn.Blocks {
+				for _, i2 := range b2.Instrs {
+					d, ok := i2.(*ssa.Defer)
+					if !ok || !dominatesInstr(i2, in) {
+						continue
+					}
+					if mc, ok := d.Call.Value.(*ssa.MakeClosure); ok {
+						if cf, ok := mc.Fn.(*ssa.Function); ok {
+							allCalls(cf, func(_ *ssa.BasicBlock, cc ssa.CallInstruction) {
+								if cc.Common().StaticCallee() == cancel {
+									deferred = true
+								}
+							})
+						}
+					}
+				}
+			}
+			givesUp := func(i ssa.Instruction) bool {
+				rt, ok := i.(*ssa.Return)
+				if !ok {
+					return false
+				}
+				// the delivered case returns what the waiter holds; with named results spilled by the defer the
+				// values are loads of the result slots, so look at what was last stored there too
+				for _, rv := range rt.Results {
+					if _, fv := loadedField(rv); fv != nil && (fv.Name() == "conn" || fv.Name() == "err") {
+						return false
+					}
+				}
+				return true
+			}
+			isCancel := func(i ssa.Instruction) bool {
+				cc, ok := i.(ssa.CallInstruction)
+				return ok && cc.Common().StaticCallee() == cancel
+			}
+			// with spilled results the return itself carries loads of the slots: classify by the stores on the way
+			deliveredStore := func(i ssa.Instruction) bool {
+				st, ok := i.(*ssa.Store)
+				if !ok {
+					return false
+				}
+				if _, isAlloc := st.Addr.(*ssa.Alloc); !isAlloc {
+					return false
+				}
+				_, fv := loadedField(st.Val)
+				return fv != nil && fv.Name() == "conn"
+			}
+			var hit ssa.Instruction
+			var path []*ssa.BasicBlock
+			if !deferred {
+				hit, path = reachAvoiding(fn, in, givesUp, func(i ssa.Instruction) bool { return isCancel(i) || deliveredStore(i) }, nil)
+			}
+			r.Check("R-wait", "AcquireConn: a waiter that was queued is cancelled on every return that does not hand out what it received", deferred || hit == nil, p.Pos(in.Pos()),
+				"a return is reachable after queueForIdle without wantConn.cancel (no deferred cancel either): the abandoned waiter still counts as waiting, so the next released connection or freed slot is delivered to nobody and never returns to the pool", blocksString(p, path)...)
+		}
+	}
+	r.Floor("R-wait", "places where AcquireConn queues a waiter", n, 1)
 }
